@@ -89,5 +89,30 @@ int ops_alloc(int n, char **a) {
         free(out); freePolygonA(&p);
         return 1;
     }
+    if ((isop(op, "apolyxs") && n >= 10) || (isop(op, "amaxpolyxs") && n >= 8)) {
+        // apolyxs failAt from res flags size <ncells> <itErr> <polygon>      (ncells / itErr: hints for the model only)
+        // amaxpolyxs failAt from res flags <itErr> <polygon>
+        int isMax = isop(op, "amaxpolyxs");
+        int res = (int)pI(a[3]); uint32_t flags = (uint32_t)pI(a[4]);
+        int64_t size = isMax ? 0 : pI(a[5]);
+        GeoPolygon p;
+        if (parsePolygonA(n, a, isMax ? 6 : 8, &p) < 0) return 0;
+        if (isMax) {
+            int64_t sz = 0;
+            begin(a);
+            H3Error e = H3_EXPORT(maxPolygonToCellsSizeExperimental)(&p, res, flags, &sz);
+            if (e) printf("err %d", (int)e); else printf("ok");
+            finish(); freePolygonA(&p);
+            return 1;
+        }
+        H3Index *out = xbuf((size_t)(size > 0 ? size : 0), sizeof(H3Index));
+        begin(a);
+        H3Error e = H3_EXPORT(polygonToCellsExperimental)(&p, res, flags, size, out);
+        if (e) printf("err %d", (int)e);
+        else { int64_t m = 0; for (int64_t i = 0; i < size; i++) if (out[i]) m++; printf("ok %" PRId64, m); }
+        finish();
+        free(out); freePolygonA(&p);
+        return 1;
+    }
     return 0;
 }
